@@ -163,6 +163,16 @@ def oracle(rec, x, Ts, model, hdd, cdd):
             fails.append(("linear_below_hb", dict(T=T, model=m)))
         if kc == 0 and T >= cb and abs(m - (c + bc * (T - cb))) > 1e-9 * scale:
             fails.append(("linear_above_cb", dict(T=T, model=m)))
+        # smoothed: distance to the line with the FITTED slope is at most slope*k*exp(u) (C11_asymptote_*)
+        LNMIN = -331.1723583361916
+        if kh > 0 and T <= hb:
+            u = max((T - hb) / kh, LNMIN)
+            if abs(m - (c - bh * kh + bh * (hb - T))) > bh * kh * math.exp(u) * (1 + 1e-6) + tol:
+                fails.append(("asymptote_below_hb", dict(T=T, model=m, line=c - bh * kh + bh * (hb - T), stored_slope=bh)))
+        if kc > 0 and T >= cb:
+            u = max((cb - T) / kc, LNMIN)
+            if abs(m - (c - bc * kc + bc * (T - cb))) > bc * kc * math.exp(u) * (1 + 1e-6) + tol:
+                fails.append(("asymptote_above_cb", dict(T=T, model=m, line=c - bc * kc + bc * (T - cb), stored_slope=bc)))
         if i > 0:
             T0, m0 = Ts[i - 1], float(model[i - 1])
             if T <= hb and m > m0 + tol:
